@@ -16,6 +16,7 @@ VERUS = os.environ.get("VX_VERUS", "verus")
 OBLIGATION_ERRORS = (
     "postcondition not satisfied",
     "precondition not satisfied",
+    "Call to non-static function fails to satisfy",
     "assertion failed",
     "invariant not satisfied at end of loop body",
     "invariant not satisfied before loop",
